@@ -3,6 +3,29 @@
 Every correlation of the family K (three classes), every group of every
 shipped library, and every estimate over <= 3 groups from the range-shape
 classes x the inside/outside temperature grid.
+
+Third wave (alphabets in mc/domains/w3_c06.py):
+* the grid of every object also holds every temperature that means something
+  to one of its constituents - each constituent's T_ref, table points and
+  range ends - probed as an inside or an outside temperature according to the
+  side of the (common) range it falls on;
+* temperature ARRAYS (float; integer dtype when the values are whole numbers;
+  the outside element first, last, or after two inside ones; a fresh array per
+  call) are given to get_CpoR of every object that has a range - raw-data,
+  incomplete and group correlations, shipped groups, estimates - not only to
+  ThermochemRawData;
+* family Z: correlations without a heat-capacity table (control: a one-point
+  table) x 2 classes x (H+S, H only, S only) x 2 reference temperatures x 9
+  placements of the declared range relative to T_ref (none, containing, an end
+  at T_ref, the single point T_ref, above / below T_ref by one ulp and by 2 K);
+* family HIST: histories [Estimate(m)] (Update(piece) Estimate(m))* on a
+  five-group library made with the GroupLibrary constructor (range beyond the
+  table, narrow, one-point table, no table with range, no table without
+  range); pieces: range widened upwards (with further table points), range
+  widened downwards, a table / a range given to a group that had none; all
+  ordered selections of <= 2 (thorough: 3) applicable pieces x with/without an
+  estimate requested before the first update x 5 unit + 20 ordered pair
+  mappings; the expected range comes from a dictionary model of the pieces.
 """
 import math
 
@@ -10,6 +33,7 @@ from ..runner import Result
 from ..models import thermoref as tr
 from ..domains import estimates as E
 from ..domains import libs
+from ..domains import w3_c06 as W3
 from . import c05
 
 LEVEL = 'exploration'
@@ -17,33 +41,67 @@ LIBS = libs.LIBS + ['synthetic']
 BOUND = {t: 'family K of C05 (%s tier) x 3 classes; every group of 9 libraries '
             '+ synthetic; all unit, class-pair and class-triple mappings; '
             'inside grid (ends, middle, T_ref, knots, midpoints) and outside '
-            'grid (one ulp, 1e-6 relative, 100 K beyond each end; 0 K; -10 K)'
-            % t for t in ('quick', 'thorough')}
+            'grid (one ulp, 1e-6 relative, 100 K beyond each end; 0 K; -10 K); '
+            'plus every constituent\'s T_ref, table points and range ends on '
+            'whichever side of the range they fall; Cp for temperature arrays '
+            '(float and integer dtype, 3 positions of the outside element) on '
+            'every object with a range; family Z: 2 classes x 3 data shapes x 2 '
+            'T_ref x (no table, one-point table) x 9 placements of the declared '
+            'range relative to T_ref = 216 correlations; family HIST: 25 '
+            'mappings over a 5-group constructor-built library x all ordered '
+            'selections of <= %d of the 2-3 Update() pieces of each group x '
+            'with/without a prior Estimate = %d histories'
+            % (t, W3.MAXLEN[t], sum(sum(1 for _ in W3.histories(m, W3.MAXLEN[t]))
+                                    for m in W3.MAPPINGS))
+         for t in ('quick', 'thorough')}
 RULE = ('every correlation / estimate is evaluated for Cp/R, H/RT, S/R at '
         'every grid temperature; outside: the call must raise, or (only when a '
         'constituent has no heat-capacity data) record an IncompleteDataWarning; '
         'inside: every property with data is a finite plain number; the '
         'reported range of an estimate equals the intersection of constituent '
         'ranges.  Non-trivial = an outside temperature, a range end, or an '
-        'estimate whose constituents have different ranges')
+        'estimate whose constituents have different ranges.  Arrays: Cp of an '
+        'array holding one outside temperature must raise (or warn as above).  '
+        'Z: a correlation whose declared range contains T_ref and its table '
+        'must be constructible and report that range; whatever object comes '
+        'out is put on the grid.  HIST: every estimate requested in a history '
+        'must report the intersection of the ranges its groups have at that '
+        'moment (dictionary model of the merged pieces); the estimate '
+        'requested last is put on the grid, with has-data / no-heat-capacity '
+        'taken from the model, not from the library')
 ASSUMPTIONS = ['numpy floating scalars count as plain numbers; Quantity objects '
                'and arrays do not',
                'estimates whose constituent ranges are disjoint are not judged '
                '(statement silent)',
                'correlations without any range are judged on the inside clause '
-               'only']
+               'only',
+               'an estimate object obtained BEFORE a later Update() is not '
+               'judged after it (statement silent about stale objects); only '
+               'estimates requested after the update are',
+               'Update() merges ranges as their union (C13 judges that); the '
+               'HIST model uses it to predict the range of a merged group',
+               'arrays are offered to get_CpoR only (H/RT and S/R do not accept '
+               'arrays on any path)']
 MANIFEST = dict(
     technique='exhaustive enumeration of correlations/estimates x boundary '
-              'temperature grid',
+              'temperature grid; operation sequences Estimate/Update on a '
+              'small library vs a dictionary model',
     text='All members of the synthetic correlation family, all shipped groups '
          'and all small estimates are evaluated just inside, at, one ulp / '
-         '1e-6 / 100 K outside each range bound and at 0 K and -10 K: outside '
-         'the range every property must raise (or warn through a constituent '
-         'without heat-capacity data), inside it must be a finite plain '
-         'number, and an estimate must report the intersection of its '
-         'constituents\' ranges.',
+         '1e-6 / 100 K outside each range bound, at 0 K and -10 K and at every '
+         'constituent\'s reference temperature, table points and range ends '
+         '(scalars, and for Cp also float/integer arrays with one outside '
+         'element): outside the range every property must raise (or warn '
+         'through a constituent without heat-capacity data), inside it must '
+         'be a finite plain number, and an estimate must report the '
+         'intersection of its constituents\' ranges - also when requested '
+         'again after Update() changed a constituent (all histories of <= 2 '
+         'updates, thorough 3, over a five-group library), and for '
+         'correlations without a table whose declared range is placed in '
+         'every way relative to the reference temperature.',
     note='Temperatures are grid points; disjoint constituent ranges are not '
-         'in the alphabet.',
+         'in the alphabet; estimate objects made before an Update() are not '
+         'judged afterwards.',
     ref='5/C06')
 P3 = ['get_CpoR', 'get_HoRT', 'get_SoR']
 
@@ -59,8 +117,15 @@ def has_data(k, prop):
     return k.ND_S_ref is not None
 
 
-def judge(R, tag, obj, rng, knots, tref, cons, wit, expect_data):
-    """obj: correlation or estimate; cons: constituent correlations."""
+def judge(R, tag, obj, rng, knots, tref, cons, wit, expect_data, special=(),
+          keyfn=None):
+    """obj: correlation or estimate; cons: constituent correlations (or
+    stand-ins with ND_Cp_data / ND_H_ref / ND_S_ref).  special: further
+    temperatures that mean something to a constituent (every constituent's
+    T_ref and range ends); together with the knots and tref they are probed
+    on whichever side of the range they fall.  keyfn(key, T, prop) may rename
+    a violation key (never suppresses one)."""
+    import numpy as np
     if rng is None:
         # no range reported: only temperatures every reading of the statement
         # calls valid are judged - the tabulated span, else T_ref alone
@@ -70,6 +135,10 @@ def judge(R, tag, obj, rng, knots, tref, cons, wit, expect_data):
         outside = []
     else:
         inside, outside = tr.temperature_grid(rng[0], rng[1], tref, knots)
+        spec = sorted(set(float(t) for t in list(knots) + [tref] + list(special)))
+        inside = sorted(set(inside) | set(t for t in spec if rng[0] <= t <= rng[1]))
+        outside = outside + [t for t in spec
+                             if (t < rng[0] or t > rng[1]) and t not in outside]
     nocp = any(hasattr(k, 'ND_Cp_data') and not k.ND_Cp_data for k in cons)
     for T in inside:
         for prop in P3:
@@ -92,23 +161,39 @@ def judge(R, tag, obj, rng, knots, tref, cons, wit, expect_data):
                             % (wit.get('what'), prop, T, r[1], type(r[1]).__name__), wit)
             else:
                 R.outcomes['inside:finite'] += 1
-    if rng is not None and hasattr(obj, 'spline') and outside:
-        # ThermochemRawData accepts arrays for Cp: one outside element is enough
-        import numpy as np
+    if rng is not None and outside:
+        # get_CpoR accepts arrays (ThermochemRawData, and everything that
+        # forwards to it: Incomplete/Group correlations, estimates): one
+        # outside element is enough.  Every call gets a fresh array.
         mid = 0.5 * (rng[0] + rng[1])
         for T in outside:
             R.evals += 1
             R.nontrivial += 1
-            for arr in (np.array([mid, T]), np.array([T, mid]), np.array([mid, mid, T])):
-                r = E.ev(obj.get_CpoR, arr)
-                if r[0] != 'exc':
-                    R.outcomes['outside:array-unsignalled'] += 1
-                    R.violation('outside-unsignalled:%s:array' % tag,
-                                '%s: get_CpoR(%r) with one temperature outside %r returned %r'
-                                % (wit.get('what'), list(arr), rng, r[1]), wit)
-                    break
+            arrs = [np.array([mid, T]), np.array([T, mid]), np.array([mid, mid, T])]
+            if float(T).is_integer() and rng[0] <= math.floor(mid) <= rng[1]:
+                arrs.append(np.array([int(math.floor(mid)), int(T)], dtype=int))
+                arrs.append(np.array([int(T), int(math.floor(mid))], dtype=int))
+            label = 'outside:array-raises'
+            for arr in arrs:
+                r = E.ev(obj.get_CpoR, arr.copy())
+                if r[0] == 'exc':
+                    continue
+                if 'IncompleteDataWarning' in r[2] and nocp:
+                    label = 'outside:array-warned(no Cp data)'
+                    continue
+                if not expect_data('get_CpoR'):
+                    label = 'outside:array-no-data'
+                    continue
+                R.outcomes['outside:array-unsignalled'] += 1
+                key = 'outside-unsignalled:%s:array' % tag
+                if keyfn is not None:
+                    key = keyfn(key, T, 'get_CpoR')
+                R.violation(key,
+                            '%s: get_CpoR(%r) with one temperature outside %r returned %r'
+                            % (wit.get('what'), list(arr), rng, r[1]), wit)
+                break
             else:
-                R.outcomes['outside:array-raises'] += 1
+                R.outcomes[label] += 1
     for T in outside:
         for prop in P3:
             R.evals += 1
@@ -124,7 +209,12 @@ def judge(R, tag, obj, rng, knots, tref, cons, wit, expect_data):
                 R.outcomes['outside:unsignalled'] += 1
                 side = 'below' if T < rng[0] else 'above'
                 near = 'near' if (abs(T - rng[0]) < 1 or abs(T - rng[1]) < 1) else 'far'
-                R.violation('outside-unsignalled:%s:%s:%s-%s' % (tag, prop, side, near),
+                if T == tref:
+                    near = 'at-Tref'
+                key = 'outside-unsignalled:%s:%s:%s-%s' % (tag, prop, side, near)
+                if keyfn is not None:
+                    key = keyfn(key, T, prop)
+                R.violation(key,
                             '%s: %s(%r) outside the range %r returned %r without '
                             'error or incomplete-data warning' % (
                                 wit.get('what'), prop, T, rng, r[1]), wit)
@@ -173,7 +263,8 @@ def run_K(R, N, spacing, shape, pl, tier, only=None):
             R.outcomes['narrow-range:constructed'] += 1
             got = k.get_range()
             judge(R, 'K-narrow:' + cls_name, k, got, [t for t in Ts if got and got[0] <= t <= got[1]],
-                  Tref, [k], dict(kind='K', desc=desc, what=str(desc)), lambda p: True)
+                  Tref, [k], dict(kind='K', desc=desc, what=str(desc)), lambda p: True,
+                  special=Ts)
     R.sample(dict(table=Ts[:4], T_ref=Tref, placement=pl), limit=1)
 
 
@@ -229,10 +320,154 @@ def run_estimates(R, name, i, n, only=None):
         R.outcomes['range:intersection'] += 1
         knots = sorted(set(float(t) for k in cons for t in k.ND_Cp_data))
         tref = float(cons[0].T_ref)
+        special = [float(k.T_ref) for k in cons]
+        for k in cons:
+            kr = k.get_range()
+            if kr is not None:
+                special += [float(kr[0]), float(kr[1])]
         judge(R, 'estimate', e, want, knots, tref, cons, wit,
-              lambda p, cons=cons: all(has_data(k, p) for k in cons))
+              lambda p, cons=cons: all(has_data(k, p) for k in cons),
+              special=special)
         if distinct:
             R.sample(dict(library=name, mapping=m2, range=want), limit=1)
+
+
+# ------------------------------------------------------------------ Z family
+
+F1 = 'F1:noCp-value-at-Tref-outside-declared-range'
+
+
+def run_Z(R, cls_name, only=None):
+    """Correlations without a heat-capacity table (control: a one-point
+    table) x placement of the declared range relative to T_ref."""
+    import pgradd.ThermoChem as tc
+    cls = tc.ThermochemIncomplete if cls_name == 'Incomplete' else tc.ThermochemGroup
+    for dname, H, S in W3.Z_DATA:
+        for Tref in W3.Z_TREFS:
+            for cp in W3.Z_CP:
+                for rname, rng in W3.z_ranges(Tref):
+                    desc = dict(cls=cls_name, data=dname, T_ref=Tref, cp=cp, range=rname)
+                    if only is not None and only != desc:
+                        continue
+                    wit = dict(kind='Z', desc=desc, what='%s %r range %r' % (cls_name, desc, rng))
+                    table = W3.z_table(cp, Tref, rng)
+                    tin = W3.z_tref_inside(Tref, rng)
+                    R.evals += 1
+                    if not tin or (rng is not None and Tref in rng):
+                        R.nontrivial += 1
+                    try:
+                        k = cls(H, S, table, Tref, rng)
+                    except Exception as e:      # noqa
+                        R.outcomes['Z:refused(%s)' % type(e).__name__] += 1
+                        if tin:
+                            R.violation('construct-refused:Z:%s' % cls_name,
+                                        '%s: the range contains T_ref and the table, yet '
+                                        'the constructor raised %s: %s' % (
+                                            wit['what'], type(e).__name__, e), wit)
+                        continue
+                    R.outcomes['Z:constructed(T_ref %s range)' % (
+                        'inside' if tin else 'OUTSIDE')] += 1
+                    got = k.get_range()
+                    got = None if got is None else (float(got[0]), float(got[1]))
+                    if got != rng:
+                        R.violation('range-reported:Z:%s' % cls_name,
+                                    '%s reports range %r' % (wit['what'], got), wit)
+                        continue
+
+                    def keyfn(key, T, prop, tin=tin, cp=cp, Tref=Tref):
+                        # the one shape found to break the statement on the
+                        # unchanged tree gets a key of its own
+                        if not tin and cp == 'none' and T == Tref and prop != 'get_CpoR':
+                            return F1
+                        return key
+                    data = dict(get_CpoR=bool(table), get_HoRT=H is not None,
+                                get_SoR=S is not None)
+                    judge(R, 'Z:' + cls_name, k, rng, sorted(table), Tref, [k], wit,
+                          lambda p, data=data: data[p], keyfn=keyfn)
+
+
+# ------------------------------------------------------------- HIST family
+
+class _Stand(object):
+    """What the model says a group holds (for judge's no-Cp / has-data tests)."""
+
+    def __init__(self, st):
+        self.ND_Cp_data = dict(st['cp'])
+        self.ND_H_ref = st['H']
+        self.ND_S_ref = st['S']
+
+
+def _hist_group(desc):
+    import pgradd.ThermoChem as tc
+    return tc.ThermochemGroup(desc.get('H'), desc.get('S'), dict(desc['cp']),
+                              W3.H_TREF, desc['rng'])
+
+
+def run_history(R, mapping, pre, seq, wit):
+    """[Estimate(m)] (Update(piece) Estimate(m))*; every requested estimate
+    must report the model's intersection; the last one is put on the grid."""
+    from pgradd.GroupAdd.Library import GroupLibrary
+    lib = GroupLibrary(None, dict((g, {'thermochem': _hist_group(W3.BASE[g])})
+                                  for g in W3.GROUPS))
+    applied = dict((g, []) for g in W3.GROUPS)
+    steps = ([None] if pre else []) + list(seq)
+    e = None
+    for n, step in enumerate(steps):
+        if step is not None:
+            g, p = step
+            sup = GroupLibrary(None, {g: {'thermochem': _hist_group(W3.piece(g, p))}})
+            r = E.ev(lib.Update, sup)
+            if r[0] != 'ok':
+                R.violation('hist:update-raises:' + r[1],
+                            '%s: Update(%s/%s) raised %s' % (wit['what'], g, p, r[1]), wit)
+                return
+            applied[g].append(p)
+        R.evals += 1
+        r = E.ev(lib.Estimate, dict(mapping), 'thermochem')
+        if r[0] != 'ok':
+            R.violation('hist:estimate-raises:' + r[1], '%s: Estimate (request %d) '
+                        'raised %s' % (wit['what'], n + 1, r[1]), wit)
+            return
+        e = r[1]
+        states = [W3.model_group(g, applied[g]) for g, _ in mapping]
+        want = W3.model_range(states)
+        got = e.get_range()
+        got = None if got is None else (float(got[0]), float(got[1]))
+        if (got is None) != (want is None) or (
+                got is not None and (abs(got[0] - want[0]) > 1e-9 or
+                                     abs(got[1] - want[1]) > 1e-9)):
+            R.outcomes['hist:range-wrong'] += 1
+            R.violation('hist:estimate-range', '%s: the estimate requested after '
+                        '%d update(s) reports range %r; its groups now have %r, '
+                        'intersection %r' % (wit['what'], sum(1 for s in steps[:n + 1] if s),
+                                             got, [s['rng'] for s in states], want), wit)
+            return
+        R.outcomes['hist:range-intersection'] += 1
+    if seq:
+        R.nontrivial += 1
+    knots = sorted(set(t for s in states for t in s['cp']))
+    special = [W3.H_TREF] + [t for s in states if s['rng'] for t in s['rng']]
+    judge(R, 'hist', e, want, knots, W3.H_TREF, [_Stand(s) for s in states], wit,
+          lambda p, states=states: all(
+              (bool(s['cp']) if p == 'get_CpoR' else
+               s['H'] is not None if p == 'get_HoRT' else s['S'] is not None)
+              for s in states), special=special)
+
+
+def run_hist(R, mi, tier, only=None):
+    mapping = W3.MAPPINGS[mi]
+    for pre, seq in W3.histories(mapping, W3.MAXLEN[tier]):
+        hist = dict(pre=pre, seq=[list(x) for x in seq])
+        if only is not None and only != hist:
+            continue
+        wit = dict(kind='hist', mapping=[list(x) for x in mapping], history=hist,
+                   what='library %s, history %s%s for mapping %r' % (
+                       '+'.join(W3.GROUPS), 'Estimate; ' if pre else '',
+                       ' '.join('Update(%s:%s); Estimate;' % tuple(x) for x in seq),
+                       mapping))
+        run_history(R, mapping, pre, seq, wit)
+    R.sample(dict(mapping=mapping, histories=sum(1 for _ in W3.histories(
+        mapping, W3.MAXLEN[tier]))), limit=1)
 
 
 def shards(tier, seed):
@@ -244,6 +479,10 @@ def shards(tier, seed):
         out.append(('groups', name))
         for i in range(3):
             out.append(('est', name, i, 3))
+    for cls_name in W3.Z_CLASSES:
+        out.append(('Z', cls_name))
+    for mi in range(len(W3.MAPPINGS)):
+        out.append(('hist', mi))
     return out
 
 
@@ -253,6 +492,10 @@ def run_shard(shard, tier):
         run_K(R, shard[1], shard[2], shard[3], shard[4], tier)
     elif shard[0] == 'groups':
         run_groups(R, shard[1])
+    elif shard[0] == 'Z':
+        run_Z(R, shard[1])
+    elif shard[0] == 'hist':
+        run_hist(R, shard[1], tier)
     else:
         run_estimates(R, shard[1], shard[2], shard[3])
     return R
@@ -265,6 +508,11 @@ def replay(w):
         run_K(R, d['N'], d['spacing'], d['shape'], d['placement'], 'thorough', only=d)
     elif w['kind'] == 'group':
         run_groups(R, w['lib'], only=w['group'])
+    elif w['kind'] == 'Z':
+        run_Z(R, w['desc']['cls'], only=w['desc'])
+    elif w['kind'] == 'hist':
+        m = [tuple(x) for x in w['mapping']]
+        run_hist(R, W3.MAPPINGS.index(m), 'thorough', only=w['history'])
     else:
         run_estimates(R, w['lib'], 0, 1, only=w['mapping'])
     return dict(violates=bool(R.violations),
